@@ -1,4 +1,5 @@
 import Blue.Driver.Util
+import Blue.Driver.C07
 import Blue.Driver.C06
 import Blue.Driver.C09
 import Blue.Driver.C17
@@ -41,6 +42,7 @@ def dispatch (toks : List String) : String :=
   | "lru" :: _ | "wl" :: _ | "wcq" :: _ | "wake" :: _ => Blue.Driver.C18.handle toks
   | "skip" :: _ | "list" :: _ => Blue.Driver.C17.handle toks
   | "kvsw" :: rest => Blue.Driver.C06.handle rest
+  | "snap" :: rest => Blue.Driver.C07.handle rest
   | _ => "bad-op"
 
 partial def loop (h : IO.FS.Stream) (out : IO.FS.Stream) (grp : Option Blue.Driver.C09.Ctx) : IO Unit := do
